@@ -100,3 +100,233 @@ def upload_synced_effects(w: World):
         check(sync[changed].sync_hash == new_hash, "changed side: sync_hash is its own hash")
         check(sync[changed].sync_path == new_path, "changed side: sync_path is its own path")
         check(sync[synced].sync_path is not None or info.path is None, "synced side has a sync_path")
+
+
+@lemma(props=["C02"], configs="sides")
+def handle_corrupt_effects(w: World):
+    """L2.4: a corrupt (unreadable) copy is frozen: no provider call, one SYNC_CORRUPT_IGNORED notification, that side
+    is marked CORRUPT and synced-as-is (so it is not copied), the other side is marked changed so that the good copy
+    is synced over it"""
+    mgr = w.mgr
+    sync = w.entry("sync")
+    side = w.changed
+    other = w.synced
+    h = sync[side].hash
+    pth = sync[side].path
+    r = mgr.handle_corrupt(side, sync)
+    check(len(provider_calls()) == 0, "no provider call")
+    check(r == FINISHED, "finished")
+    check(sync[side].exists == CORRUPT, "side is marked corrupt")
+    check(sync[side].sync_hash == h and sync[side].sync_path == pth, "corrupt side counts as synced as it is")
+    check(truthy(sync[other].changed), "the other side is marked changed")
+    ns = notifications()
+    check(len(ns) == 1, "exactly one notification")
+
+
+@lemma(props=["C17"], configs="sides", fixed_clock=True)
+def mark_changed_strictly_increasing(w: World):
+    """L17.3: change times never repeat and always increase, whatever the clock returns"""
+    state = w.state
+    ent = w.entry("ent")
+    side = w.changed
+    last = state._last_changed_time
+    state.mark_changed(side, ent)
+    check(ent[side].changed > last, "new change time is later than every earlier one")
+    check(state._last_changed_time == ent[side].changed, "and is remembered as the latest")
+    check(ent[side].changed >= now(), "never earlier than the clock")
+    check(implies(now() > last, ent[side].changed == now()), "equal to the clock when the clock advanced")
+
+
+@lemma(props=["C17", "C10"], configs="none")
+def punt_defers_by_a_bounded_amount(w: World):
+    """L17.4: punting raises the priority by exactly one; when that makes it positive each set change flag moves
+    later by exactly the side's punt interval (default_sleep/10) -- a bounded deferral"""
+    state = w.state
+    ent = w.entry("ent")
+    p0 = ent.priority
+    c0 = ent[0].changed
+    c1 = ent[1].changed
+    ent.punt()
+    check(ent.priority == p0 + 1, "priority + 1")
+    if p0 + 1 > 0:
+        if c0:
+            check(ent[0].changed == c0 + state._punt_secs[0], "local change time deferred by punt_secs")
+        else:
+            check(ent[0].changed == c0, "unset local change flag stays unset")
+        if c1:
+            check(ent[1].changed == c1 + state._punt_secs[1], "remote change time deferred by punt_secs")
+        else:
+            check(ent[1].changed == c1, "unset remote change flag stays unset")
+    else:
+        check(ent[0].changed == c0 and ent[1].changed == c1, "no deferral while priority stays <= 0")
+    check(state._punt_secs[0] > 0 and state._punt_secs[1] > 0, "punt interval is positive")
+
+
+@lemma(props=["C18", "C10"], configs="none")
+def backoff_formula(w: World, p: float):
+    """L18.1: after k consecutive failures the wait is min(max, min*mult^(k-1)).  Induction over k with the ghost
+    p = mult^(k-1): base (in_backoff == 0 -> min(max, min)) and step."""
+    r = w.runnable()
+    assume(0 < r.min_backoff and r.min_backoff <= r.max_backoff and r.mult_backoff >= 1)
+    assume(p >= 1)
+    b = r.in_backoff
+    assume(b == 0 or b == min(r.max_backoff, r.min_backoff * p))
+    r._Runnable__increment_backoff()
+    if b == 0:
+        check(r.in_backoff == min(r.max_backoff, r.min_backoff), "base: first failure waits min(max, min)")
+    else:
+        check(r.in_backoff == min(r.max_backoff, r.min_backoff * p * r.mult_backoff), "step: next failure multiplies by mult, capped at max")
+    check(r.in_backoff > 0 and r.in_backoff <= r.max_backoff, "bounded: 0 < wait <= max")
+    check(r.in_backoff >= b, "never decreases on failure")
+
+
+@lemma(props=["C10", "C18"], configs="none")
+def notify_from_exception_table(w: World):
+    """L10.1: exactly the matching notification kind for each cloud exception class (whole lattice)"""
+    n = w.notification_manager()
+    e = w.cloud_exception()
+    from cloudsync.notification import NotificationType, SourceEnum
+    import cloudsync.exceptions as ex
+    n.notify_from_exception(SourceEnum.SYNC, e, "/p")
+    puts = calls("put")
+    if isinstance(e, ex.CloudDisconnectedError):
+        want = NotificationType.DISCONNECTED_ERROR
+    elif isinstance(e, ex.CloudOutOfSpaceError):
+        want = NotificationType.OUT_OF_SPACE_ERROR
+    elif isinstance(e, ex.CloudFileNameError):
+        want = NotificationType.FILE_NAME_ERROR
+    elif isinstance(e, ex.CloudNamespaceError):
+        want = NotificationType.NAMESPACE_ERROR
+    elif isinstance(e, ex.CloudRootMissingError):
+        want = NotificationType.ROOT_MISSING_ERROR
+    elif isinstance(e, ex.CloudTemporaryError):
+        want = NotificationType.TEMPORARY_ERROR
+    else:
+        want = None
+    if want is None:
+        check(len(puts) == 0, "no notification for other classes")
+    else:
+        check(len(puts) == 1, "exactly one notification")
+        check(puts[0].args[0].ntype == want, "of the matching kind")
+        check(puts[0].args[0].source == SourceEnum.SYNC and puts[0].args[0].path == "/p", "with the given source and path")
+
+
+EMBRACE_STUBS = {
+    "cloudsync.sync.manager:SyncManager.delete_synced": {},
+    "cloudsync.sync.manager:SyncManager.handle_changed_is_missing": {},
+    "cloudsync.sync.manager:SyncManager.handle_path_change_or_creation": {},
+    "cloudsync.sync.manager:SyncManager.handle_hash_diff": {},
+    "cloudsync.sync.manager:SyncManager.check_rename_is_delete_create": {"results": ["None", "FINISHED"], "raises": False},
+    "cloudsync.sync.manager:SyncManager._get_parent_conflict": {"results": ["None", "entry"], "raises": False, "havoc": False},
+}
+
+
+@lemma(props=["C02", "C03", "C12"], configs="sides", raises=["Exception"],
+       stubs={"cloudsync.sync.manager:SyncManager.delete_synced": {},
+              "cloudsync.sync.manager:SyncManager.handle_changed_is_missing": {},
+              "cloudsync.sync.manager:SyncManager.handle_path_change_or_creation": {},
+              "cloudsync.sync.manager:SyncManager.handle_hash_diff": {},
+              "cloudsync.sync.manager:SyncManager.check_rename_is_delete_create": {"results": ["None", "FINISHED"], "raises": False, "havoc": False},
+              "cloudsync.sync.manager:SyncManager._get_parent_conflict": {"results": ["None", "entry"], "raises": False, "havoc": False}})
+def embrace_change_dispatch(w: World):
+    """Dispatch guards of embrace_change (callees are verified by their own lemmas and stubbed here):
+    it makes no provider write itself; a peer is deleted only for a trashed source or for an entry that moved out of
+    the root after having been synced; a delete never wins over a pending creation on the other side (L2.1);
+    a path the translate function declines is left alone on both sides (L12.3)."""
+    mgr = w.mgr
+    sync = w.entry("sync")
+    changed = w.changed
+    synced = w.synced
+    pre_exists = sync[changed].exists
+    pre_path = sync[changed].path
+    pre_sync_path = sync[changed].sync_path
+    pre_discarded = sync.is_discarded
+    tp = mgr.translate(synced, pre_path)
+    outside_root = not truthy(w.providers[changed].is_subpath_of_root(pre_path))
+    other_is_new_file = truthy(sync.is_creation(synced)) and sync[synced].otype == FILE and truthy(sync[synced].changed)
+    r = mgr.embrace_change(sync, changed, synced)
+    check(len(provider_writes()) == 0, "embrace_change itself makes no provider write")
+    dels = calls("delete_synced")
+    has_path_or_exists = truthy(pre_path) or pre_exists == EXISTS
+    moved_out = has_path_or_exists and tp is None and truthy(pre_sync_path) and outside_root
+    if len(dels) > 0:
+        check(moved_out or pre_exists == TRASHED, "a deletion is propagated only for a trashed source or an entry moved out of the root")
+        check(len(dels) == 1 and dels[0].args[1] == changed and dels[0].args[2] == synced, "one deletion, from changed to synced")
+    if has_path_or_exists and tp is None and not moved_out:
+        check(len(dels) == 0 and len(calls("handle_hash_diff")) == 0 and len(calls("handle_path_change_or_creation")) == 0,
+              "a path the translation declines is not propagated in any way")
+        check(r == FINISHED and sync.is_discarded, "it is set aside as irrelevant")
+    if pre_exists == TRASHED and other_is_new_file and not pre_discarded and not moved_out and (tp is not None or not has_path_or_exists):
+        check(len(dels) == 0, "a delete does not win over a pending creation on the other side")
+
+
+@lemma(props=["C07", "C10", "C08"], configs="none", raises=["_BackoffError"],
+       stubs={"cloudsync.sync.manager:SyncManager.pre_sync": {"results": ["True", "False"], "havoc": False},
+              "cloudsync.sync.manager:SyncManager.sync": {"results": ["True", "False"], "havoc": False}})
+def sync_one_entry_classification(w: World):
+    """L7.1 / L10.2: one sync step ends with a storage commit after everything else; a fault of any class never escapes
+    as anything but a back-off request; temporary-class faults are reported and the entry deferred"""
+    mgr = w.mgr
+    sync = w.entry("sync")
+    p0 = sync.priority
+    try:
+        mgr._sync_one_entry(sync)
+        raised = False
+    except BaseException:
+        raised = True
+    names = effect_names()
+    n_commit = len(calls("storage_commit"))
+    if not raised:
+        check(n_commit == 1 and names[len(names) - 1] == "storage_commit", "normal completion: commit is the last effect")
+        check(sync.priority == p0, "not deferred")
+        check(len(calls("notify_from_exception")) == 0, "nothing reported")
+    else:
+        check(sync.priority == p0 + 1, "a failing entry is deferred (priority + 1)")
+        check(n_commit <= 1, "at most one commit")
+        if n_commit == 1:
+            check(names[len(names) - 1] == "storage_commit", "commit is the last effect")
+
+
+@lemma(props=["C17", "C11"], configs="sides", raises=["AssertionError"],
+       inline=["cloudsync.sync.state:SyncState._change_path"],
+       stubs={"cloudsync.sync.state:SyncState._update_kids": {"results": ["None"], "raises": False, "havoc": False}})
+def path_change_assigns_application_priority(w: World, path: str):
+    """L17.5: whenever an entry's path changes, its priority becomes what the application's prioritize(side, path)
+    says for the new path (higher or lower), and the path is recorded"""
+    state = w.state
+    ent = w.entry("ent")
+    side = w.changed
+    assume(len(path) > 0 and path != ent[side].path)
+    assume(ent[side].oid is not None)
+    state._change_path(side, ent, path, w.providers[side])
+    check(ent[side]._path == path, "the new path is recorded")
+    check(ent.priority == state.prioritize(side, path), "priority is the application's priority for the new path")
+
+
+@lemma(props=["C18", "C10"], configs="none")
+def service_loop_iteration(w: World, sleep: float):
+    """L18.2: every iteration of Runnable.run, from any loop state: no exception of the work function escapes; the
+    wait that follows is the current back-off if positive else the ordinary sleep; a failure grows the back-off by the
+    formula, a successful call that did something resets it, a no-op success leaves it; `do` is not called once a
+    stop was requested; cleanup (done) runs iff the stop was final."""
+    r = w.runnable()
+    assume(0 < r.min_backoff and r.min_backoff <= r.max_backoff and r.mult_backoff >= 1)
+    assume(r.in_backoff >= 0 and sleep > 0)
+    stop_requested_before = r._Runnable__stopping or r._Runnable__shutdown
+    r.run(sleep=sleep)
+    check(r._Runnable__stopped is True, "the service reports stopped when run returns")
+    check(len(calls("done")) == (1 if r._Runnable__shutdown else 0), "cleanup runs exactly once iff the stop was final")
+    dos = calls("do")
+    sleeps = calls("interruptable_sleep")
+    # effects of the (arbitrary) iteration appear twice in the log: they may repeat any number of times
+    if len(dos) > 0:
+        b = dos[0].args[0]
+        kind = dos[0].args[1]
+        if kind == "did-something":
+            want = 0
+        elif kind == "nothing-happened":
+            want = b
+        else:
+            want = min(r.max_backoff, max(b * r.mult_backoff, r.min_backoff))
+        if len(sleeps) > 0:
+            check(sleeps[0].args[0] == (want if want > 0 else sleep), "the wait after a call follows the back-off law")
